@@ -138,6 +138,36 @@ bool apply_edit(std::string& d, const Step& st, bool& validity_preserving)
   if (op == "ma") { const xmlscan::Attr* a = attr(st.arg(0)); if (!a) return false; d.erase(a->nb, a->ve + 1 - a->nb); return true; }
   if (op == "mn") { const xmlscan::Attr* a = attr(st.arg(0)); if (!a) return false; d.insert(a->ne, "x"); return true; }
   if (op == "mv") { const xmlscan::Attr* a = attr(st.arg(0)); if (!a) return false; std::string lit = st.s.empty() ? HOSTILE[st.arg(1) % NHOSTILE] : st.s; d.replace(a->vb, a->ve - a->vb, lit); return true; }
+  if (op == "mc") {
+    // the text of a <cov-mat> (or any element with character data): one number more, one less, or a changed separator
+    std::vector<int> cm; for (size_t t = 0; t < S.tags.size(); t++) if (S.tags[t].start && !S.tags[t].empty && S.tags[t].match >= 0 && (S.tags[t].name == "cov-mat" || S.tags[t].name == "flt" || S.tags[t].name == "dim" || S.tags[t].name == "band")) cm.push_back((int)t);
+    if (cm.empty()) return false;
+    const xmlscan::Tag& T = S.tags[cm[(size_t)st.arg(0) % cm.size()]]; size_t b = T.e, e = S.tags[T.match].b;
+    std::string text = d.substr(b, e - b);
+    switch (st.arg(1) % 4) {
+      case 0: text += " 1.5 "; break;                                                            // one number too many
+      case 1: { size_t q = text.find_last_of("0123456789"); if (q == std::string::npos) return false; size_t p2 = text.find_last_of(" \n\t", q); text.erase(p2 == std::string::npos ? 0 : p2, q - (p2 == std::string::npos ? 0 : p2) + 1); break; }   // one too few
+      case 2: text += " 1 2 3 4 5 6 7 8 9 10 11 12 13 14 15 16 17 18 19 20 "; break;              // far too many
+      case 3: { size_t q = text.find_first_of("0123456789"); if (q == std::string::npos) return false; text.insert(q + 1, " "); break; }        // a number cut in two
+    }
+    d.replace(b, e - b, text); return true;
+  }
+  if (op == "mk") {
+    // a <cov-mat> whose band is not smaller than its dimension, with exactly as many elements as the storage formula
+    // dim*(band+1) - band*(band+1)/2 asks for (so that only the band check can refuse it)
+    std::vector<int> cm; for (size_t t = 0; t < S.tags.size(); t++) if (S.tags[t].start && !S.tags[t].empty && S.tags[t].match >= 0 && S.tags[t].name == "cov-mat") cm.push_back((int)t);
+    if (cm.empty()) return false;
+    const xmlscan::Tag& T = S.tags[cm[(size_t)st.arg(0) % cm.size()]];
+    int dim = 0; for (auto& a : T.attrs) if (d.substr(a.nb, a.ne - a.nb) == "dim") dim = atoi(d.substr(a.vb, a.ve - a.vb).c_str());
+    if (dim < 1 || dim > 60) return false;
+    int band = dim + (int)(st.arg(1) % 3); long n = (long)dim * (band + 1) - (long)band * (band + 1) / 2;
+    if (n < 1) { band = dim; n = (long)dim * (band + 1) - (long)band * (band + 1) / 2; }
+    if (n < 1) return false;
+    std::string el; for (long i = 0; i < n; i++) el += " 4";
+    size_t b = T.b, e = S.tags[T.match].e;
+    d.replace(b, e - b, fmt("<cov-mat dim=\"%d\" band=\"%d\">", dim, band) + el + " </cov-mat>");
+    return true;
+  }
   if (op == "mt") { if (elems.empty()) return false; int t = elems[(size_t)st.arg(0) % elems.size()]; const xmlscan::Tag& T = S.tags[t];
                     static const char* NN[] = {"obs", "point", "cov-mat", "coordinates", "vectors", "vec", "height-differences", "dh", "direction", "bogus", "points-observations", "network", "parameters", "description", "z-angle", "s-distance", "distance", "angle", "azimuth"};
                     std::string nn = NN[st.arg(1) % 19];
@@ -444,9 +474,9 @@ Plan IoEngine::generate(uint64_t seed, uint64_t index, const std::string& tier)
   } else if (cls < 8) {
     // class (ii): grammar-aware invalid edits and byte-level corruption
     int ne = (int)g.range(1, 3);
-    static const char* M[] = {"me", "md", "mm", "ma", "mn", "mv", "mv", "mt", "flip", "setb", "ins", "delb"};
+    static const char* M[] = {"me", "md", "mm", "ma", "mn", "mv", "mv", "mt", "flip", "setb", "ins", "delb", "mc", "mk"};
     for (int i = 0; i < ne; i++) {
-      const char* op = M[g.below(12)];
+      const char* op = M[g.below(14)];
       if (op[0] == 'm') step(op, {(long long)g.below(5000), (long long)g.below(5000)});
       else step(op, {(long long)stratified_offset(g, S, D.size()), (long long)g.below(256)});
     }
